@@ -305,6 +305,9 @@ func (e *Engine) cmdCheck(prop, tier, evid, known, replayDir string, replay bool
 		all = append(all, e.structuralObligations("isDuplicate")...)
 	case "C10":
 		all = append(all, e.canonObligations()...)
+		all = append(all, e.algorithmTableObligations()...)
+	case "C17", "C18":
+		all = append(all, e.algorithmTableObligations()...)
 	case "C05":
 		all = append(all, e.parseWidthObligations()...)
 		all = append(all, e.mnemonicTableObligations()...)
